@@ -469,7 +469,13 @@ int Model::b_process_internal(int mi, const MEv& e, int source) {
     }
     I.busy = false;
     if (M(mi).has_completion && (handled & R_TRUE)) b_process_internal(mi, MEv{EV_NONE, OCC_NONE}, source | SRC_DIRECT); // C10
-    if (!(source & SRC_DEFERRED)) {
+    if (M(mi).queue_first) {
+        // front-end option event_queue_before_deferred_queue: pending submissions first, then the deferred events
+        if (!(source & SRC_MSGQ)) {
+            b_process_msg_queue(mi);                                                                              // C04
+            if (!(source & SRC_DEFERRED) && M(mi).has_deferred) b_handle_deferred(mi, (handled & R_TRUE) != 0);   // C05
+        }
+    } else if (!(source & SRC_DEFERRED)) {
         if (M(mi).has_deferred) b_handle_deferred(mi, (handled & R_TRUE) != 0);   // C05
         if (!(source & SRC_MSGQ)) b_process_msg_queue(mi);                        // C04
     }
